@@ -7,7 +7,7 @@ import sys
 HERE = os.path.dirname(os.path.dirname(os.path.abspath(__file__)))
 dst = os.path.join(HERE, "baseline")
 files = subprocess.check_output(["git", "-C", "/repo", "ls-tree", "-r", "--name-only", "HEAD", "esutil"], text=True).split()
-keep = [f for f in files if "/tests/" not in f and "/htm_src/" not in f and f.endswith((".py", ".c", ".cc", ".cpp", ".h")) and not f.endswith(("_wrap.cc", "_wrap.cpp"))]
+keep = [f for f in files if "/tests/" not in f and f.endswith((".py", ".c", ".cc", ".cpp", ".h", ".hpp", ".hxx")) and not f.endswith(("_wrap.cc", "_wrap.cpp"))]
 import shutil
 shutil.rmtree(dst, ignore_errors=True)
 for f in keep:
